@@ -38,12 +38,24 @@ Definition pname_eqb (a b : pname) : bool :=
 Record pyc := mkPyc { pid : Z; params : list pname }.     (* a Python callable and its signature *)
 Record kfn := mkKfn { kid : Z; karity : nat }.            (* a Klong function {..} *)
 
+(* a parameter as inspect.signature shows it (for _handle_import) *)
+Inductive pkind := KPosOnly | KPosOrKw | KVarPos | KKwOnly | KVarKw.
+Record iparam := mkIparam { ip_name : pname; ip_named_args : bool; ip_kind : pkind; ip_default : bool }.
+
+(* a callable found in an imported module: its real signature, and whether it is wrapped by a
+   functools.wraps decorator (the wrapper itself takes star-args and star-kwargs and carries
+   __wrapped__, so inspect.signature(..., follow_wrapped=True) still shows the real one) *)
+Record item := mkItem { iid : Z; ireal : list iparam; idecorated : bool }.
+
 (* what a scope dictionary can hold *)
 Inductive entry :=
 | EData (v : val)
 | EPy (c : pyc)       (* KGCall(KGLambda(fn), args=None, arity): a wrapped Python callable *)
 | ERaw (c : pyc)      (* the bare Python function object *)
-| EKfn (k : kfn).
+| EKfn (k : kfn)
+| ELam (it : item) (nargs : nat) (klong wild : bool).
+                      (* a KGLambda stored directly, as .py/.pyf do: KGLambda(item, args=x,y,z[:nargs], provide_klong)
+                         or KGLambda(item, wildcard=True) *)
 
 (* facts read from the source by the translator *)
 Record flags := mkFlags {
@@ -180,6 +192,42 @@ Definition call_lambda (fl : flags) (st : state) (c : pyc) (args : list val) : s
   let '(st', r) := lam_call fl pushed c in
   (mkState (scx st) (log st'), r).
 
+(* ---------------------------------------------------------------- imported callables *)
+(* wildcard mode of _get_pos_args: x, y, z in turn through the WHOLE scope stack, stopping at the first miss *)
+Fixpoint get_pos_wild (c : ctx) (names : list Z) : list val :=
+  match names with
+  | [] => []
+  | s :: r => match c_lookup c s with Some (EData v) => v :: get_pos_wild c r | _ => [] end
+  end.
+
+Definition pos_capable (p : iparam) : bool :=
+  match ip_kind p with KPosOnly | KPosOrKw => true | _ => false end.
+
+Definition is_required (p : iparam) : bool :=
+  match ip_kind p with
+  | KPosOnly => true
+  | KPosOrKw => negb (ip_default p)
+  | _ => false
+  end.
+
+(* does the real Python function accept k positional actuals (the interpreter object included)? *)
+Definition accepts (real : list iparam) (k : nat) : bool :=
+  (length (filter is_required real) <=? k)%nat
+  && ((k <=? length (filter pos_capable real))%nat
+      || existsb (fun p => match ip_kind p with KVarPos => true | _ => false end) real)
+  && negb (existsb (fun p => match ip_kind p with KKwOnly => negb (ip_default p) | _ => false end) real).
+
+(* _eval_fn + KGLambda.__call__ for a KGLambda registered by an import *)
+Definition call_item (st : state) (it : item) (n : nat) (k w : bool) (args : list val) : state * res :=
+  let pushed := zip_frame xyz args :: scx st in
+  match (if w then Some (get_pos_wild pushed xyz) else get_pos_args pushed (firstn n xyz)) with
+  | None => (st, RErr)
+  | Some pos =>
+      if accepts (ireal it) (if k then S (length pos) else length pos)
+      then (mkState (scx st) (log st ++ [(iid it, pos)]), RVal (VPyRes (iid it) pos))
+      else (st, RErr)
+  end.
+
 (* the Klong application  n(a1;...;ak)  with already evaluated arguments *)
 Definition apply_name (fl : flags) (st : state) (n : Z) (args : list val) : state * res :=
   match c_lookup (scx st) n with
@@ -192,6 +240,7 @@ Definition apply_name (fl : flags) (st : state) (n : Z) (args : list val) : stat
   | Some (EKfn k) =>
       if (length args <? karity k)%nat then (st, RUnapplied)
       else (st, RVal (VKRes (kid k) (firstn (karity k) args)))
+  | Some (ELam it n k w) => call_item st it n k w args      (* f is a KGLambda, f_arity is the call's own: always called *)
   | Some (EData _) => (st, RBad)
   | None => (st, RBad)
   end.
@@ -203,6 +252,26 @@ Fixpoint fill (holes : list (option val)) (xs : list val) : list val :=
   | [] => []
   | Some v :: r => v :: fill r xs
   | None :: r => match xs with x :: xs' => x :: fill r xs' | [] => [] end
+  end.
+
+(* merge_projections: the first list has one slot per parameter; every further list supplies,
+   position by position, the slots still open: its n-th entry goes to the n-th open slot, an
+   omitted entry (None) leaves that slot open *)
+Fixpoint fill_stage (slots st : list (option val)) : list (option val) :=
+  match slots with
+  | [] => []
+  | Some v :: r => Some v :: fill_stage r st
+  | None :: r => match st with [] => None :: r | e :: st' => e :: fill_stage r st' end
+  end.
+
+Definition merge (stages : list (list (option val))) : list (option val) :=
+  match stages with [] => [] | s0 :: r => fold_left fill_stage r s0 end.
+
+Fixpoint all_some (l : list (option val)) : option (list val) :=
+  match l with
+  | [] => Some []
+  | Some v :: r => match all_some r with Some vs => Some (v :: vs) | None => None end
+  | None :: _ => None
   end.
 
 Fixpoint each_loop (fl : flags) (st : state) (n : Z) (vs : list val) : state * option (list val) :=
@@ -234,7 +303,30 @@ Inductive form :=
 | FProj (holes : list (option val)) (xs : list val)   (* q::n(a;;c); q(b) *)
 | FEach (vs : list val)                               (* n'[v1 v2 ...] *)
 | FOver (vs : list val)                               (* n/[v1 v2 ...] *)
-| FAt (args : list val).                              (* n@[a b c] *)
+| FAt (args : list val)                               (* n@[a b c] *)
+| FStaged (stages : list (list (option val)))         (* p::n(a;;); q::p(;c); q(b) : any number of stages *)
+| FStagedEach (stages : list (list (option val))) (vs : list val).   (* ... q'[v1 v2 ..] : the last stage is one value *)
+
+Definition apply_staged (fl : flags) (st : state) (n : Z) (stages : list (list (option val))) : state * res :=
+  match all_some (merge stages) with
+  | Some args => apply_name fl st n args
+  | None => (st, RUnapplied)
+  end.
+
+Fixpoint staged_each_loop (fl : flags) (st : state) (n : Z) (stages : list (list (option val))) (vs : list val)
+  : state * option (list val) :=
+  match vs with
+  | [] => (st, Some [])
+  | v :: r =>
+      match apply_staged fl st n (stages ++ [[Some v]]) with
+      | (st1, RVal x) =>
+          match staged_each_loop fl st1 n stages r with
+          | (st2, Some xs) => (st2, Some (x :: xs))
+          | (st2, None) => (st2, None)
+          end
+      | (st1, _) => (st1, None)
+      end
+  end.
 
 Definition run_form (fl : flags) (st : state) (n : Z) (f : form) : state * res :=
   match f with
@@ -255,6 +347,12 @@ Definition run_form (fl : flags) (st : state) (n : Z) (f : form) : state * res :
           end
       end
   | FAt args => apply_name fl st n args
+  | FStaged stages => apply_staged fl st n stages
+  | FStagedEach stages vs =>
+      match staged_each_loop fl st n stages vs with
+      | (st', Some xs) => (st', RVal (VList xs))
+      | (st', None) => (st', RErr)
+      end
   end.
 
 (* ---------------------------------------------------------------- klong[name] and KGFnWrapper *)
@@ -270,6 +368,7 @@ Definition read_name (st : state) (n : Z) : readback :=
   | Some (EPy c) => BWrapper n (EPy c)
   | Some (EKfn k) => BWrapper n (EKfn k)
   | Some (ERaw c) => BRawCallable c
+  | Some (ELam _ _ _ _) => BKeyError        (* not produced by klong[name] = v; outside the store model *)
   | None => BKeyError
   end.
 
@@ -314,21 +413,12 @@ Definition hstep (fl : flags) (c : ctx) (o : hop) : ctx :=
 Definition hrun (fl : flags) (c : ctx) (h : list hop) : ctx := fold_left (hstep fl) h c.
 
 (* ---------------------------------------------------------------- _handle_import *)
-Inductive pkind := KPosOnly | KPosOrKw | KVarPos | KKwOnly | KVarKw.
-Record iparam := mkIparam { ip_name : pname; ip_named_args : bool; ip_kind : pkind; ip_default : bool }.
 
 Inductive imported :=
 | ILambda (nargs : nat) (klong : bool)     (* KGLambda(item, args = x,y,z[:nargs], provide_klong) *)
 | IWildcard                                (* KGLambda(item, wildcard=True): takes what is in the frame, arity 3 *)
 | IStar                                    (* a two-parameter .pyc-style trampoline: more than three parameters *)
 | IError.
-
-Definition is_required (p : iparam) : bool :=
-  match ip_kind p with
-  | KPosOnly => true
-  | KPosOrKw => negb (ip_default p)
-  | _ => false
-  end.
 
 Definition is_optional (p : iparam) : bool :=
   match ip_kind p with KPosOrKw => ip_default p | _ => false end.
@@ -344,3 +434,18 @@ Definition handle_import (sig : list iparam) : imported :=
       if (n <=? 3)%nat then ILambda n has_klong
       else if has_klong then IError            (* assert n_args <= 3 *)
       else IStar.
+
+(* what inspect.signature(item, follow_wrapped=follow) shows *)
+Definition wrapper_sig : list iparam :=
+  [mkIparam POther true KVarPos false; mkIparam POther false KVarKw false].
+
+Definition inspect_sig (follow : bool) (it : item) : list iparam :=
+  if idecorated it && negb follow then wrapper_sig else ireal it.
+
+(* klong[name] = _handle_import(item): the entry the name gets (None: not registered as a KGLambda) *)
+Definition register (follow : bool) (it : item) : option entry :=
+  match handle_import (inspect_sig follow it) with
+  | ILambda n k => Some (ELam it n k false)
+  | IWildcard => Some (ELam it 0 (existsb (fun p => pname_eqb (ip_name p) PKlong) (ireal it)) true)
+  | IStar | IError => None
+  end.
